@@ -3,7 +3,7 @@ use libfuzzer_sys::fuzz_target;
 
 // coverage-guided search over the same choice-stream decoder the proptest engine uses; the
 // semantic oracle of the property is inside the target (a failure that is not a known finding
-// panics, which libFuzzer reports and saves as a crash input)
+// aborts, which libFuzzer reports and saves as a crash input)
 fuzz_target!(|data: &[u8]| {
     caoverif::fuzz::run_one("C07", data);
 });
